@@ -276,9 +276,24 @@ Inductive ev :=
 | EQDelete (q : positive)                             (* a user deletes a Queue *)
 | ELSync (q : positive)                               (* informer delivers q's current object *)
 | EResync (q : positive)                              (* informer add notification (controller start) *)
-| EProc (i : nat).                                    (* a worker processes the i-th pending request *)
+| EProc (i : nat)                                     (* a worker processes the i-th pending request *)
+| EProcF (i : nat) (c : positive).                    (* the same while every API call that addresses queue c
+                                                         (annotation patch, spec.parent patch, ApplyStatus) FAILS *)
 
 Definition sync_req (q : positive) := mkReq q ASync EvOutOfSync 0.
+
+(* A transient API fault on queue c during one processing step.  Every call of the
+   controller that addresses a queue fails exactly like a call on a queue that is gone
+   (the handlers only test err != nil), so the step is the ordinary one on the state in
+   which c is hidden from the server; afterwards c is there again, untouched. *)
+Definition hide (s : st) (c : positive) : st := set_srv s (delete c (srv s)).
+Definition restore (s : st) (c : positive) (s1 : st) : st :=
+  match srv s !! c with
+  | Some o => set_srv s1 (<[c := o]> (srv s1))
+  | None => s1
+  end.
+Definition proc_f (s : st) (i : nat) (c : positive) : st * outcome :=
+  let '(s1, o) := proc (hide s c) i in (restore s c s1, o).
 
 Definition step (s : st) (e : ev) : st * outcome :=
   match e with
@@ -328,6 +343,7 @@ Definition step (s : st) (e : ev) : st * outcome :=
       | None => (s, ONone)
       end
   | EProc i => proc s i
+  | EProcF i c => proc_f s i c
   end.
 
 Definition run (s : st) (h : list ev) : st := fold_left (fun s e => fst (step s e)) h s.
